@@ -128,6 +128,16 @@ def run(v, prefixes=("C08",), pid="C08"):
             events.append(cp.compact_event(cp.permuted(rest + [finer], rng, dup=False)))
             if pid == "C08" and lvl >= 1:
                 events.append(cp.compact_event(cp.permuted(rest + [ser.cell_to_parent(level[(k + 7) % len(level)])], rng, dup=False)))
+    # a whole early face (as its resolution-0 cell or its five segments) together with a complete cover, two or three
+    # levels down, of a cell on a LATER face: few cells, the first of them coarse, and merges that must cascade
+    for k in range(6 if quick else 30):
+        a = rng.randrange(0, 8)
+        b = rng.randrange(a + 1, 12)
+        top = cells.real_id({"r": rng.choice([1, 2]), "f": b, "s": rng.randrange(p["NS"]), "d": []}) if rng.random() < 0.5 else \
+            cells.real_id({"r": 2, "f": b, "s": rng.randrange(p["NS"]), "d": [rng.randrange(4)]})
+        cover = ser.cell_to_children(top, ser.get_resolution(top) + rng.choice([2, 3]))
+        early = [faces[a]] if k % 2 else ser.cell_to_children(faces[a], 1)
+        events.append(cp.compact_event(cp.permuted(early + cover, rng, dup=(pid == "C09"))))
     # subsets of the twelve faces (eleven of them, after the client removed one from a list the API gave it)
     for k in range(10 if quick else 60):
         sub = list(faces)
